@@ -84,6 +84,17 @@ def annotate(raw, out):
     return len(evs)
 
 
+def cleanup():
+    """TLC writes a trace-exploration module next to the spec when a trace is rejected: remove them"""
+    d = os.path.join(vlib.ROOT, SPEC)
+    for f in os.listdir(d):
+        if '_TTrace_' in f:
+            try:
+                os.remove(os.path.join(d, f))
+            except OSError:
+                pass
+
+
 def cat(paths, out):
     with open(out, 'w') as o:
         for p in paths:
@@ -137,6 +148,7 @@ def run_and_validate(ctx, exe, texts, what, label, n=4, seed=1, pct=3, spurious=
             ctx.violation('stalled:' + label, what + ': an execution never completes [' + label + ']', path)
         if tot and not res.violation and not stalled:
             break
+    cleanup()
     return tr, tot
 
 
@@ -169,7 +181,9 @@ MUST = {
 
 def model(ctx, name, what, label, fixed=False, dump=None, timeout=900):
     """E1: TLC on one of the generated MC programs (spec/future/gen.py: MC)"""
-    cfg = 'MC_%s%s.cfg' % (name, '_fixed' if fixed and name in ('wany', 'wany1') else '')
+    cfg = 'MC_%s.cfg' % name
+    if fixed and os.path.exists(os.path.join(vlib.ROOT, SPEC, 'MC_%s_fixed.cfg' % name)):
+        cfg = 'MC_%s_fixed.cfg' % name
     must = set(MUST[name].split())
     return ctx.check_model(SPEC, 'MCFuture.tla', cfg, what, label=label, dump=dump, workers=4, timeout=timeout,
                            vacuity_exempt=tuple(a for a in ALL_ACTIONS if a not in must))
@@ -191,4 +205,5 @@ def cover_replay(ctx, exe, name, what, fixed=False):
     annotate(raw, tr)
     ctx.validate(SPEC, 'FutureTrace.tla', cfg_for(ctx, fixed), tr, what + ' [cover replay %s]' % name,
                  executions=tot.get('completed', 0), label='cover replay ' + name)
+    cleanup()
     return tr
